@@ -359,7 +359,7 @@ def _run_query(q, run_dir):
 # ----------------------------------------------------------------------------
 # counterexample extraction and native replay
 
-NONDET_RE = re.compile(r"^\s*return_value_nondet_(\w+)=.*\(([01 ]+)\)\s*$")
+NONDET_RE = re.compile(r"^\s*(vh_nd)=.*\(([01 ]+)\)\s*$")
 
 
 def extract_trace(q, run_dir, wdir):
